@@ -33,6 +33,11 @@ def correspondence(ctx):
     for s_ in long_strings(ctx, alpha + zs, (60 if ctx.tier == 'quick' else 3000)):
         cases.append(f'rules|nick|addmap|{hexs(s_)}')
         cases.append(f'rules|op|addmap|{hexs(s_)}')
+    for s_ in straddle_strings(maxn=70 if ctx.tier == 'quick' else 300):
+        h_ = hexs(s_)
+        cases.append(f'rules|nick|addmap|{h_}')
+        cases.append(f'rules|op|addmap|{h_}')
+        cases.append(f'finddis|{h_}')
     res = run_cases(cases, ctx.work)
     zset = set(zs)
 
